@@ -1272,6 +1272,44 @@ pub(crate) mod verif_js_op {
             }
         };
     }
+    /// a symbolic choice among concrete candidate spellings (for the 8/9-character `Infinity` family)
+    pub(crate) fn body_str_to_number_words() {
+        const WORDS: [&[u8; 9]; 8] = [b"Infinity ", b"-Infinity", b"+Infinity", b"infinity ", b"INFINITY ", b" Infinity", b"Infinit1 ", b"-infinity"];
+        let sel: usize = kani::any();
+        kani::assume(sel < 8);
+        let mut s = String::with_capacity(10);
+        let mut j = 0;
+        while j < 9 {
+            s.push('a');
+            j += 1;
+        }
+        let mut bytes = [0u8; 9];
+        let mut i = 0;
+        while i < 9 {
+            bytes[i] = WORDS[sel][i];
+            unsafe { s.as_bytes_mut()[i] = bytes[i] };
+            i += 1;
+        }
+        unsafe { FS_PLAN = 1.0 };
+        let s = MD::new(s);
+        #[cfg(verif_replay)]
+        eprintln!("REPLAY-INPUT: str_to_number({:?})", s.as_str());
+        let r = str_to_number(s.as_str());
+        kani::cover!(true, "returned");
+        match js_string_to_number(&bytes) {
+            Err(()) => assert!(r.is_none() || r.unwrap().is_nan(), "str_to_number accepts a spelling of infinity other than `Infinity`"),
+            Ok(Some(v)) => assert!(r == Some(v), "str_to_number rejects `Infinity` / `-Infinity` / `+Infinity` (or gives the wrong sign)"),
+            Ok(None) => assert!(false, "spec: these candidates are never decimal literals"),
+        }
+    }
+    //@ob name=C07.str_to_number.infinity props=C07,C09,C10,C01 strength=bounded bound="the spellings Infinity, -Infinity, +Infinity, infinity, INFINITY, -infinity, Infinit1 with trailing/leading space" fns=js_op::str_to_number stubs=1 replay=generic timeout=400
+    //@ desc="only `Infinity` (optionally signed, surrounded by whitespace) names infinity; case variants and near-misses are not numbers"
+    #[cfg_attr(kani, kani::proof)]
+    #[cfg_attr(kani, kani::unwind(12))]
+    #[cfg_attr(kani, kani::stub(<f64 as std::str::FromStr>::from_str, from_str_stub))]
+    pub(crate) fn k_c07_s2n_infinity() {
+        body_str_to_number_words();
+    }
 //@GENERATED-S2N
     //@ob name=C07.str_to_number.num.0 harness=k_c07_s2n_num_0 props=C07,C09,C10,C01 tier=quick strength=bounded bound="every string of exactly 0 characters over the alphabet {0 1 9 . - + e E space tab x a}" fns=js_op::str_to_number stubs=1 replay=generic timeout=300
     //@ desc="str_to_number(s) == ECMAScript StringToNumber(s): surrounding whitespace ignored, \"\" is 0, only `Infinity` spelled that way, 0x/0o/0b literals honoured (unsigned), decimal literals by from_str (assumed contract), anything else non-numeric"
@@ -1282,7 +1320,7 @@ pub(crate) mod verif_js_op {
     //@ob name=C07.str_to_number.num.2 harness=k_c07_s2n_num_2 props=C07,C09,C10,C01 tier=quick strength=bounded bound="every string of exactly 2 characters over the alphabet {0 1 9 . - + e E space tab x a}" fns=js_op::str_to_number stubs=1 replay=generic timeout=300
     //@ desc="str_to_number(s) == ECMAScript StringToNumber(s): surrounding whitespace ignored, \"\" is 0, only `Infinity` spelled that way, 0x/0o/0b literals honoured (unsigned), decimal literals by from_str (assumed contract), anything else non-numeric"
     s2n_harness!(k_c07_s2n_num_2, 2, ALPHA_NUM);
-    //@ob name=C07.str_to_number.num.3 harness=k_c07_s2n_num_3 props=C07,C09,C10,C01 tier=quick strength=bounded bound="every string of exactly 3 characters over the alphabet {0 1 9 . - + e E space tab x a}" fns=js_op::str_to_number stubs=1 replay=generic timeout=300
+    //@ob name=C07.str_to_number.num.3 harness=k_c07_s2n_num_3 props=C07,C09,C10,C01 tier=thorough strength=bounded bound="every string of exactly 3 characters over the alphabet {0 1 9 . - + e E space tab x a}" fns=js_op::str_to_number stubs=1 replay=generic timeout=300
     //@ desc="str_to_number(s) == ECMAScript StringToNumber(s): surrounding whitespace ignored, \"\" is 0, only `Infinity` spelled that way, 0x/0o/0b literals honoured (unsigned), decimal literals by from_str (assumed contract), anything else non-numeric"
     s2n_harness!(k_c07_s2n_num_3, 3, ALPHA_NUM);
     //@ob name=C07.str_to_number.num.4 harness=k_c07_s2n_num_4 props=C07,C09,C10,C01 tier=thorough strength=bounded bound="every string of exactly 4 characters over the alphabet {0 1 9 . - + e E space tab x a}" fns=js_op::str_to_number stubs=1 replay=generic timeout=300
@@ -1300,7 +1338,7 @@ pub(crate) mod verif_js_op {
     //@ob name=C07.str_to_number.word.2 harness=k_c07_s2n_word_2 props=C07,C09,C10,C01 tier=quick strength=bounded bound="every string of exactly 2 characters over the alphabet {i n f I N a t y 1 - space A}" fns=js_op::str_to_number stubs=1 replay=generic timeout=300
     //@ desc="str_to_number(s) == ECMAScript StringToNumber(s): surrounding whitespace ignored, \"\" is 0, only `Infinity` spelled that way, 0x/0o/0b literals honoured (unsigned), decimal literals by from_str (assumed contract), anything else non-numeric"
     s2n_harness!(k_c07_s2n_word_2, 2, ALPHA_WORD);
-    //@ob name=C07.str_to_number.word.3 harness=k_c07_s2n_word_3 props=C07,C09,C10,C01 tier=quick strength=bounded bound="every string of exactly 3 characters over the alphabet {i n f I N a t y 1 - space A}" fns=js_op::str_to_number stubs=1 replay=generic timeout=300
+    //@ob name=C07.str_to_number.word.3 harness=k_c07_s2n_word_3 props=C07,C09,C10,C01 tier=thorough strength=bounded bound="every string of exactly 3 characters over the alphabet {i n f I N a t y 1 - space A}" fns=js_op::str_to_number stubs=1 replay=generic timeout=300
     //@ desc="str_to_number(s) == ECMAScript StringToNumber(s): surrounding whitespace ignored, \"\" is 0, only `Infinity` spelled that way, 0x/0o/0b literals honoured (unsigned), decimal literals by from_str (assumed contract), anything else non-numeric"
     s2n_harness!(k_c07_s2n_word_3, 3, ALPHA_WORD);
     //@ob name=C07.str_to_number.word.4 harness=k_c07_s2n_word_4 props=C07,C09,C10,C01 tier=thorough strength=bounded bound="every string of exactly 4 characters over the alphabet {i n f I N a t y 1 - space A}" fns=js_op::str_to_number stubs=1 replay=generic timeout=300
@@ -1318,7 +1356,7 @@ pub(crate) mod verif_js_op {
     //@ob name=C07.str_to_number.radix.2 harness=k_c07_s2n_radix_2 props=C07,C09,C10,C01 tier=quick strength=bounded bound="every string of exactly 2 characters over the alphabet {0 x X b o 1 7 f - g}" fns=js_op::str_to_number stubs=1 replay=generic timeout=300
     //@ desc="str_to_number(s) == ECMAScript StringToNumber(s): surrounding whitespace ignored, \"\" is 0, only `Infinity` spelled that way, 0x/0o/0b literals honoured (unsigned), decimal literals by from_str (assumed contract), anything else non-numeric"
     s2n_harness!(k_c07_s2n_radix_2, 2, ALPHA_RADIX);
-    //@ob name=C07.str_to_number.radix.3 harness=k_c07_s2n_radix_3 props=C07,C09,C10,C01 tier=quick strength=bounded bound="every string of exactly 3 characters over the alphabet {0 x X b o 1 7 f - g}" fns=js_op::str_to_number stubs=1 replay=generic timeout=300
+    //@ob name=C07.str_to_number.radix.3 harness=k_c07_s2n_radix_3 props=C07,C09,C10,C01 tier=thorough strength=bounded bound="every string of exactly 3 characters over the alphabet {0 x X b o 1 7 f - g}" fns=js_op::str_to_number stubs=1 replay=generic timeout=300
     //@ desc="str_to_number(s) == ECMAScript StringToNumber(s): surrounding whitespace ignored, \"\" is 0, only `Infinity` spelled that way, 0x/0o/0b literals honoured (unsigned), decimal literals by from_str (assumed contract), anything else non-numeric"
     s2n_harness!(k_c07_s2n_radix_3, 3, ALPHA_RADIX);
     //@ob name=C07.str_to_number.radix.4 harness=k_c07_s2n_radix_4 props=C07,C09,C10,C01 tier=thorough strength=bounded bound="every string of exactly 4 characters over the alphabet {0 x X b o 1 7 f - g}" fns=js_op::str_to_number stubs=1 replay=generic timeout=300
